@@ -12,8 +12,12 @@ def make_inputs(rng, wd):
     # equal-length sequences on purpose: ties in the canonical order expose any dependence on stale memory
     dna = gen.family(rng, 6, 36, gen.DNA, sub=0.2, indel=0.0) + gen.family(rng, 2, 30, gen.DNA, sub=0.2, indel=0.1)
     prot = [s + "LKEF" for s in gen.family(rng, 5, 30, gen.AA, sub=0.25, indel=0.0)] + [s + "LKEF" for s in gen.family(rng, 2, 22, gen.AA, sub=0.2, indel=0.1)]
+    # many records without residues (name-only FASTA entries) among a few real ones: kalign drops them at run time
+    sparse = []
+    for i in range(24):
+        sparse.append(gen.rand_seq(rng, gen.DNA, 20) if i in (3, 11, 17) else "")
     files = {}
-    for k, seqs in (("dna", dna), ("prot", prot)):
+    for k, seqs in (("dna", dna), ("prot", prot), ("sparse", sparse)):
         p = os.path.join(wd, k + ".fa")
         open(p, "w").write(kv.fasta([("%s%d" % (k[0], i), s) for i, s in enumerate(seqs)]))
         a = os.path.join(wd, k + ".arr")
@@ -92,12 +96,12 @@ def run(tier, seed, which="C16"):
             h = rng.randrange(2)
             opts = []
             if st[h] is None:
-                opts.append(("read", rng.choice(["dna", "prot"])))
+                opts.append(("read", rng.choice(["dna", "prot", "sparse"])))
             elif st[h][1] == "read":
                 opts += [("run", rng.choice(list(PARS)[:2])), ("free",)]
             else:
                 opts += [("write", rng.choice(["fasta", "clu"])), ("free",), ("free",)]
-            opts.append(("kalign", rng.choice(["dna", "prot"]), rng.choice(list(PARS)[:2])))
+            opts.append(("kalign", rng.choice(["dna", "prot", "sparse"]), rng.choice(list(PARS)[:2])))
             o = rng.choice(opts)
             if o[0] == "read":
                 c = dict(op="read", h=h, i=o[1]); chains.append(content[h] + [c]); content[h] = content[h] + [c]; st[h] = (o[1], "read")
@@ -114,6 +118,12 @@ def run(tier, seed, which="C16"):
             if st[h] is not None:
                 c = dict(op="free", h=h); hist.append(c); chains.append([c])
         hists.append(dict(hist=hist, chains=chains, long=True))
+    for inp in ("dna", "prot", "sparse"):
+        for fmt in ("fasta", "clu"):      # not msf: its header carries the file name and the time
+            hist = [dict(op="read", h=0, i=inp), dict(op="run", h=0, p="default"), dict(op="write", h=0, f=fmt), dict(op="free", h=0),
+                    dict(op="kalign", i=inp, p="default")]
+            chains = [hist[:1], hist[:2], hist[:3], [hist[3]], [hist[4]]]
+            hists.append(dict(hist=hist, chains=chains, long=True))
     files = make_inputs(rng, wd)
     # ---- fresh-process results, one per distinct chain
     chainkeys = {}
